@@ -23,8 +23,9 @@ struct St {
   // scripted raw peer
   int p_lfd = -1, p_cfd = -1, p_ufd = -1; int p_port = 0, lib_port = 0;
   // at most one pending peer action that can enable a waiting call
-  uint64_t pend_at = 0; int pend_kind = 0;     // 1 data for A/B stream, 2 connect to lib listener, 3 datagram to lib udp, 4 peer closes connection
+  uint64_t pend_at = 0; int pend_kind = 0;     // 1 data for A/B stream, 2 connect to lib listener, 3 datagram to lib udp, 4 peer closes connection, 5 peer drains what we sent
   int peer_tasks = 0;
+  bool small_bufs = false;
   std::vector<int> raw_fds;      // every descriptor the scripted peer opened (closed at the end)
 };
 St *S;
@@ -70,6 +71,12 @@ bool readable_now(LS &L) {
   if (!L.m.stream) return !o->dq.empty();
   if (o->state == kern::SS_LISTEN) return !o->accept_q.empty();
   return !o->rx.empty() || o->rx_fin || o->rx_rst || o->shut_rd;
+}
+
+bool writable_now(LS &L) {
+  kern::SockObj *o = ko(L); if (!o) return false;
+  if (!L.m.stream) return true;
+  return o->wire.size() < (size_t)o->sndbuf || o->shut_wr || o->peer_gone || o->rx_rst;
 }
 
 enum IoKind { IO_RECEIVE, IO_RECEIVE_FROM, IO_ACCEPT, IO_WAIT_IN, IO_SEND, IO_SEND_TO, IO_WAIT_OUT, IO_CONNECT, IO_SHUTDOWN, IO_BIND, IO_LISTEN, IO_SETBUF };
@@ -122,7 +129,8 @@ IoResult io_call(LS &L, IoKind k, int arg = 0) {
 void waiting_call(LS &L, IoKind k, bool ready_now, int enabling_kind) {
   Model &m = L.m;
   if (m.closed) { io_call(L, k); return; }
-  bool will_be_enabled = S->pend_kind == enabling_kind && S->pend_at > 0;
+  // a pending peer action enables the call only if it is still to come (a connect takes up to ~0.3 ms to complete after it was issued)
+  bool will_be_enabled = S->pend_kind == enabling_kind && S->pend_at > 0 && S->pend_at + (enabling_kind == 2 ? 300000ULL : 0ULL) >= now_ns();
   bool explicit_wait = k == IO_WAIT_IN || k == IO_WAIT_OUT;
   if (!ready_now && (m.blocking || explicit_wait) && m.timeout == 0 && !will_be_enabled) return;    // would wait for ever: never generated
   uint64_t t0 = now_ns();
@@ -172,12 +180,14 @@ void peer_action_after(int kind, uint64_t delay_us) {
   spawn(0, [kind, at]() {
     sleep_until(at);
     kern::RawScope raw;
+    sim::SimScope atomic_action;      // the scripted peer acts in one indivisible step (its calls never block)
     struct sockaddr_storage ss; socklen_t sl;
     char payload[64]; memset(payload, 'p', sizeof payload);
     if (kind == 1 && S->p_cfd >= 0) simk_send(S->p_cfd, payload, 40, MSG_NOSIGNAL);
     else if (kind == 2) { int fd = simk_socket(S->af, SOCK_STREAM | SOCK_NONBLOCK, 0); mk_sockaddr(S->lib_port, &ss, &sl); simk_connect(fd, (struct sockaddr *)&ss, sl); S->p_cfd = fd; S->raw_fds.push_back(fd); }
     else if (kind == 3 && S->p_ufd >= 0) { mk_sockaddr(S->lib_port, &ss, &sl); simk_sendto(S->p_ufd, payload, 50, 0, (struct sockaddr *)&ss, sl); }
     else if (kind == 4 && S->p_cfd >= 0) { simk_shutdown(S->p_cfd, SHUT_RDWR); }
+    else if (kind == 5 && S->p_cfd >= 0) { char sink[4096]; while (simk_recv(S->p_cfd, sink, sizeof sink, MSG_DONTWAIT) > 0) {} }
     S->peer_tasks--;
   });
 }
@@ -247,9 +257,22 @@ void connected_ops(LS &L, int n) {
     case 0: case 1: waiting_call(L, IO_RECEIVE, readable_now(L), 1); break;
     case 2: peer_action_after(1, 100 + gen(3) * 40000 + gen(500000)); break;
     case 3: waiting_call(L, IO_WAIT_IN, readable_now(L), 1); break;
-    case 4: { IoResult r = io_call(L, IO_SEND, (int)gen(200)); if (!r.ok && !L.m.closed && r.code == P_ERROR_IO_WOULD_BLOCK && L.m.blocking) violate("would_block_in_blocking_mode", "p_socket_send", "blocking send reported would-block"); break; }
-    case 5: { IoResult r = io_call(L, IO_WAIT_OUT); if (!L.m.closed && !r.ok && r.code == P_ERROR_IO_TIMED_OUT && L.m.timeout == 0) violate("timed_out_without_timeout", "p_socket_io_condition_wait", "wait without timeout timed out"); break; }
-    case 6: set_ops(L); break;
+    case 4: waiting_call(L, IO_SEND, writable_now(L), 5); break;
+    case 5: waiting_call(L, IO_WAIT_OUT, writable_now(L), 5); break;
+    case 6:
+      if (S->small_bufs && !L.m.closed && gen(2)) {
+        // back-pressure: fill the send path until the kernel would block, then a send "cannot proceed" until the peer drains
+        bool was_blocking = L.m.blocking;
+        p_socket_set_blocking(L.s, FALSE); L.m.blocking = false;
+        for (int i = 0; i < 200 && writable_now(L); i++) { IoResult r = io_call(L, IO_SEND, 199); if (!r.ok) break; }
+        p_socket_set_blocking(L.s, was_blocking); L.m.blocking = was_blocking;
+        if (!writable_now(L)) {
+          probe("state.send_path_full");
+          if (gen(2)) peer_action_after(5, 100 + gen(3) * 40000 + gen(200000));
+          waiting_call(L, IO_SEND, false, 5);
+        }
+      } else set_ops(L);
+      break;
     case 7: if (gen(4) == 0) { int how = 1 + (int)gen(3); IoResult r = io_call(L, IO_SHUTDOWN, how); if (r.ok && how == 3 && !L.m.closed) L.m.connected = false; } break;
     default: set_ops(L);
     }
@@ -411,7 +434,8 @@ void root() {
   lib_begin();
   S->fam = gen(2) ? P_SOCKET_FAMILY_INET : P_SOCKET_FAMILY_INET6;
   S->af = S->fam == P_SOCKET_FAMILY_INET ? AF_INET : AF_INET6;
-  kern::set_net_defaults(65536, 65536, false);
+  S->small_bufs = gen(3) == 0;
+  if (S->small_bufs) kern::set_net_defaults(gen(2) ? 256 : 1024, gen(2) ? 256 : 1024, false); else kern::set_net_defaults(65536, 65536, false);
   uint32_t sc = gen(5);
   if (sc < 2) scenario_client(); else if (sc < 4) scenario_server(); else scenario_udp();
   // let a pending peer action finish, then close / post-close life
